@@ -105,9 +105,16 @@ def localNames (Γ : Ctx) (c : ClassId) : Option (List Str) :=
   | .ok m => some ((allVars m).map (·.localName))
   | .error _ => none
 
+/-- the names `local_names_match` accepts for a class: the local name of every var and the
+wrapper name of every wrapped var (a wrapped field is written under its wrapper name) -/
+def matchNames (Γ : Ctx) (c : ClassId) : Option (List Str) :=
+  match metaOf Γ c with
+  | .ok m => some ((allVars m).map (·.localName) ++ (allVars m).filterMap (fun v => wrapperName v.toVarCore))
+  | .error _ => none
+
 /-- `XmlContext.local_names_match(names, clazz)` -/
 def localNamesMatch (Γ : Ctx) (names : List Str) (c : ClassId) : Bool :=
-  match localNames Γ c with
+  match matchNames Γ c with
   | some ln => names.all (ln.contains ·)
   | none => false
 
@@ -148,6 +155,16 @@ def kType : Str := "type".toList
 def anyKeys : List Str := [kQName, kText, kTail, kChildren, kAttributes]
 /-- `class_type.derived_keys` -/
 def derivedKeys : List Str := [kQName, kValue, kType]
+
+/-- the members of `AnyElement` that do not default to `None` -/
+def anyRequired : List Str := [kChildren, kAttributes]
+/-- the members of `DerivedElement` that do not default to `None` -/
+def derivedRequired : List Str := [kQName, kValue]
+
+/-- `DictDecoder.is_generic(keys, clazz)` : the keys are field names of the generic class and
+every field that does not default to `None` is there (FILTER_NONE drops the `None` members) -/
+def isGeneric {α} (d : List (Str × α)) (required all : List Str) : Bool :=
+  required.all ((kvKeys d).contains ·) && (kvKeys d).all (all.contains ·)
 
 def optStrVal : Option Str → Val
   | none => .none
